@@ -404,13 +404,40 @@ def hunts(quick, focus, timeout):
             cfg['hp_mode'] = 'sweep'
             cfg['repro'] = False
             out.append(cfg)
+    # hooks that leave the population OUTSIDE the box, or as integer-dtype arrays snapped to the lattice (only for the optimizers whose own
+    # in-place float updates accept integer arrays on the unchanged tree): the sweep evaluates exactly what the hook left
+    INT_OK = ('AIWPSO', 'BA', 'FA', 'FPA', 'GSA', 'PSO', 'RPSO', 'SCA')    # no in-place update of a position anywhere in their code
+    for o in opts:
+        if o == 'GP' or 'search' not in WR[o]['spaces']:
+            continue
+        modes = ['move_out'] + (['move_int'] if o in INT_OK else [])
+        for i in range(len(modes) * (1 if quick else 4)):
+            c = {'objective': ['sphere', 'shifted', 'linear'][i % 3], 'ret': 'pyfloat', 'box': ['sym10', 'asym'][(i // 2) % 2], 'agents': [5, 'min', 12][i % 3],
+                 'n_variables': [2, 3, 1][i % 3], 'n_dimensions': 1, 'n_iterations': [5, 8, 2][i % 3], 'draws': 'seeded', 'hp': 'default',
+                 'store_best_only': False, 'hook': modes[i % len(modes)]}
+            cfg = make(o, 'search', c, 9970 + i, timeout)
+            cfg['repro'] = False
+            out.append(cfg)
+    # the observed space is not the only live one: a second space of the same kind and shape, with another box, is built after it (state
+    # shared between spaces -- cached default bounds, prototypes -- is rewritten by the later one); also at scale
+    for o in opts:
+        for i in range(2 if quick else 6):
+            s_ = WR[o]['spaces'][i % len(WR[o]['spaces'])]
+            big = i % 2 == 1
+            c = {'objective': ['sphere', 'shifted'][i % 2], 'ret': 'pyfloat', 'box': ['unit', 'sym10'][i % 2], 'agents': 130 if big else [5, 'min'][(i // 2) % 2],
+                 'n_variables': [2, 3][i % 2], 'n_dimensions': [1, 2][i % 2], 'n_iterations': 3 if big else [5, 8][i % 2], 'draws': 'seeded', 'hp': 'default',
+                 'store_best_only': False, 'hook': 'observe', 'functions': 'arith', 'depth': (1, 3), 'n_terminals': 2}
+            cfg = make(o, s_, c, 9980 + i, max(timeout, 30.0) if big else timeout)
+            cfg['other_space'] = True
+            cfg['repro'] = False
+            out.append(cfg)
     # SCALE: long runs, large populations, many variables -- something that accumulates, a counter or index type that overflows, a
     # threshold that switches to another code path only shows beyond the small sizes of the sampled matrix
     for o in opts:
         if quick:
             shapes = [(4, 2, 300), (130, 2, 3)] if o != 'GP' else [(10, 2, 70)]
-            if len(opts) > 3:
-                shapes = shapes[:2]
+            if o in ('HC', 'PSO'):
+                shapes.append((3, 1, 1100))          # more than 1000 / 1024 records in one history
         else:
             shapes = [(4, 2, 1100), (300, 3, 4), (12, 40, 30), (40, 9, 260), (70, 2, 70)] if o != 'GP' else [(10, 2, 300), (130, 3, 5), (12, 12, 40)]
         for i, (na, nv, ni) in enumerate(shapes):
